@@ -60,6 +60,10 @@ type c14Step struct {
 
 type c14Case struct {
 	Steps []c14Step `json:"steps"`
+	// Quiet: nothing is asked of the root between the loads (a request or a print may itself repair
+	// or refresh what a failed load left behind): the root is looked at once, after the last step,
+	// next to a root that only ever saw the successful documents
+	Quiet bool `json:"quiet,omitempty"`
 }
 
 type snapshot struct {
@@ -158,7 +162,11 @@ func checkC14(c *c14Case) (ds []hx.Discrepancy, info map[string]bool) {
 		return b.String()
 	}
 	for i, st := range c.Steps {
-		before, pan := snap(root)
+		var before snapshot
+		var pan interface{}
+		if !c.Quiet {
+			before, pan = snap(root)
+		}
 		if pan != nil {
 			add("panic", "", "observing the root panicked before step %d: %v\n%s", i, pan, history(i))
 			return
@@ -185,6 +193,10 @@ func checkC14(c *c14Case) (ds []hx.Discrepancy, info map[string]bool) {
 			}
 			info["failing-load"] = true
 			info["fail-class="+st.Class] = true
+			if c.Quiet {
+				info["root-not-looked-at-between-loads"] = true
+				continue
+			}
 			after, pan := snap(root)
 			if pan != nil {
 				add("panic", "", "observing the root panicked after failing step %d: %v\n%s", i, pan, history(i))
@@ -226,7 +238,7 @@ func countFails(steps []c14Step) int {
 	return n
 }
 
-var failClasses = []string{"syntax", "undefined-reference", "duplicate-type", "duplicate-member-by-extend", "extend-missing-target", "extend-kind-mismatch", "validation-rule", "validation-rule", "validation-rule-on-existing", "schema-extension-only-error", "schema-block-then-failure", "reader-fault", "second-extension-fails"}
+var failClasses = []string{"syntax", "undefined-reference", "duplicate-type", "duplicate-member-by-extend", "extend-missing-target", "extend-kind-mismatch", "validation-rule", "validation-rule", "validation-rule-on-existing", "schema-extension-only-error", "schema-block-then-failure", "reader-fault", "second-extension-fails", "extension-fails-midway"}
 
 // touchContent writes valid content that modifies existing definitions (extends, schema block).
 func touchContent(t *rapid.T, s *hx.Schema, n int, label string) string {
@@ -266,7 +278,7 @@ func genCaseC14(t *rapid.T) *c14Case {
 	o := hx.SDLOpts{}
 	arr := Arrange(t, s, o, "arr", true, 4)
 	docs := arr.Texts()
-	c := &c14Case{}
+	c := &c14Case{Quiet: rapid.IntRange(0, 2).Draw(t, "quiet") == 0}
 	next := 0
 	n := 0
 	existing := func() []string { // names of types defined by documents loaded so far
@@ -379,6 +391,24 @@ func genCaseC14(t *rapid.T) *c14Case {
 			// a first extension applies, a later one in the same document fails
 			valid += fmt.Sprintf("type ZqS%d { a: Int }\nextend type ZqS%d { b: Int }\n", n, n)
 			bad = fmt.Sprintf("extend type ZqS%d { b: Int }", n)
+		case "extension-fails-midway":
+			// one extension that lists a new member before a member the type already has: it fails
+			// when it is half applied
+			bad = fmt.Sprintf("type Zq%d { q: Nope%d }", n, n)
+			if td := s.Type(some); td != nil {
+				switch {
+				case td.Kind == hx.KObject && len(td.Fields) > 0:
+					bad = fmt.Sprintf("extend type %s { zqMid%d: Int %s: Int }", some, n, td.Fields[0].Name)
+				case td.Kind == hx.KInterface && len(td.Fields) > 0:
+					bad = fmt.Sprintf("extend interface %s { zqMid%d: Int %s: Int }", some, n, td.Fields[0].Name)
+				case td.Kind == hx.KEnum && len(td.Values) > 0:
+					bad = fmt.Sprintf("extend enum %s { ZQMID%d %s }", some, n, td.Values[0].Name)
+				case td.Kind == hx.KInput && len(td.Inputs) > 0:
+					bad = fmt.Sprintf("extend input %s { zqMid%d: Int %s: Int }", some, n, td.Inputs[0].Name)
+				case td.Kind == hx.KUnion && len(td.Members) > 0:
+					bad = fmt.Sprintf("type ZqMidT%d { a: Int }\nextend union %s = ZqMidT%d | %s", n, some, n, td.Members[0])
+				}
+			}
 		case "reader-fault":
 			bad = ""
 		}
